@@ -366,19 +366,23 @@ fn parse_token(text: &str) -> IResult<&str, Token> {
     }
 }
 
-fn parse_token_not_semicolon(text: &str) -> IResult<&str, Token> {
-    let (rest, token) = parse_token(text)?;
-    // A value ends at the `;`, or at the `}` which closes the block when
-    // the final `;` has been left out.
-    if token == Token::Semicolon || token == Token::CloseBrace {
-        fail(text)
-    } else {
-        Ok((rest, token))
-    }
-}
-
 fn parse_value(text: &str) -> IResult<&str, RawValue> {
-    let (rest, mut tokens) = many0(parse_token_not_semicolon)(text)?;
+    // A value ends at the `;`, or at the `}` which closes the block when
+    // the final `;` has been left out.  A `{}` block inside the value
+    // belongs to it, with any `;` it contains.
+    let mut rest = text;
+    let mut tokens = Vec::new();
+    let mut depth = 0usize;
+    while let Ok((remain, token)) = parse_token(rest) {
+        match token {
+            Token::OpenBrace => depth += 1,
+            Token::CloseBrace if depth > 0 => depth -= 1,
+            Token::Semicolon | Token::CloseBrace if depth == 0 => break,
+            _ => (),
+        }
+        tokens.push(token);
+        rest = remain;
+    }
     let mut important = false;
     if let [.., Token::Delim('!'), Token::Ident(x)] = &tokens[..] {
         if x == "important" {
